@@ -43,8 +43,8 @@ ALL = SINGLES + CROSS + ROTS
 def required(tier):
     cover = [f"cls:{c}" for c in ALL if c != "HilbertEOF"] + [f"layout:{l}" for l in LAYOUTS] + [f"sched:{s}" for s in SCHEDS]
     cover += ["mode:lazy", "mode:eager"] + [f"decided:{c}" for c in ALL if c != "HilbertEOF"]
-    cover += ["cross:use_pca", "cross:use_pca:single", "cross:use_pca:samples"]
-    return {"mon": ["sched_entries_compute", "lazy_fits_observed"], "cover": cover, "max_refused_share": 0.6}
+    cover += ["cross:use_pca", "cross:use_pca:single", "cross:use_pca:samples", "nans:eager_dask"]
+    return {"mon": ["sched_entries_compute", "lazy_fits_observed", "behaviour_transform_compared"], "cover": cover, "max_refused_share": 0.6}
 
 
 def _case(rng, cls=None, layout=None, sched=None, mode=None, solver=None):
@@ -102,6 +102,17 @@ def cases(tier, seed):
             c["dseed"] = c["dseed"] - c["dseed"] % 4 + 1
             out.append(c)
             i += 1
+    # eager fits of dask-backed data with fully missing features / samples (check_nans=True)
+    for cls in ALL:
+        if cls in ("OPA", "POP", "ExtendedEOF", "HilbertEOF"):
+            continue
+        c = _case(gen.rng_for(1205, i), cls, "samples" if i % 2 else "both", "sync" if i % 3 else "threads2", "eager")
+        c["check_nans"] = True
+        c["dseed"] = c["dseed"] - c["dseed"] % 2
+        if cls == "SparsePCA":
+            c["layout"] = "features"
+        out.append(c)
+        i += 1
     nrand = 40 if tier == "quick" else 1500
     for j in range(nrand):
         out.append(_case(gen.rng_for(seed, 12, j)))
@@ -126,7 +137,22 @@ def _data(case):
     # correlate the second field with the first so that cross-set modes are well separated
     M2[:, : min(q, p)] += 0.7 * M[:, : min(q, p)]
     Y = xu.make_da(M2 + rng.standard_normal(q), (q,), ("x",))
+    if _has_nans(case):
+        # fully missing features (one latitude row of X, one cell of Y) and one fully missing sample in both fields:
+        # the NaN bookkeeping (Sanitizer) has its own dask branch; reference = the same data held in memory
+        X = X.copy()
+        Y = Y.copy()
+        X[:, int(rng.integers(0, fa)), :] = np.nan
+        if case["cls"] in CROSS or case["cls"] in ("MCARotator", "CPCCARotator"):
+            Y[:, int(rng.integers(0, q))] = np.nan
+        t = int(rng.integers(0, n))
+        X[t] = np.nan
+        Y[t] = np.nan
     return X, Y
+
+
+def _has_nans(case):
+    return bool(case["mode"] == "eager" and case["check_nans"] and case["dseed"] % 2 == 0 and case["cls"] not in ("OPA", "POP", "ExtendedEOF", "HilbertEOF"))
 
 
 def _chunks(case, da):
@@ -241,8 +267,43 @@ def _compare(obs, name, got, ref, tol, tags, cls=None):
         obs.close(f"{name}:{key}", a, b, tol, scale=max(scale, 1e-300), tags=dict(tags, entry=key, symptom="dask_ne_numpy"))
 
 
+BEHAVIOUR = ("EOF", "EOFRotator", "MCA", "CCA", "CPCCA", "RDA", "MCARotator", "CPCCARotator")
+
+
+def _behaviour(obs, case, cls, m, ref_m, Xd, Yd, X, Y, tol, tags):
+    """the computed model must also BEHAVE like the in-memory one: transform of the dask-backed training data and
+    of a dask-backed subset of it, and the reconstruction from its scores (classes with a sign convention only)"""
+    if cls not in BEHAVIOUR:
+        return
+    nfld = 2 if (cls in CROSS or cls in ("MCARotator", "CPCCARotator")) else 1
+    fa, fb = zoo.Fitted(cls, m, nfld), zoo.Fitted(cls, ref_m, nfld)
+    tol = max(tol, 1e-8)
+    sub = slice(1, None, 2)
+    with warnings.catch_warnings():
+        warnings.simplefilter("ignore")
+        for nm, da_, db_ in (("train", (Xd, Yd), (X, Y)), ("subset", (Xd.isel(time=sub), Yd.isel(time=sub)), (X.isel(time=sub), Y.isel(time=sub)))):
+            ta = fa.transform(*da_[:nfld])
+            tb = fb.transform(*db_[:nfld])
+            for i_, (a, b_) in enumerate(zip(ta, tb)):
+                b_ = b_.dropna("time", how="all") if "time" in b_.dims else b_
+                a = a.sel(time=b_["time"]) if "time" in a.dims else a
+                a = np.asarray(a.transpose(*b_.dims).values)
+                b_ = np.asarray(b_.values)
+                obs.close(f"dask_vs_numpy:transform_{nm}[{i_}]", a, b_, tol, scale=float(np.nanmax(np.abs(b_))), tags=dict(tags, op="transform", entry="transform", symptom="dask_ne_numpy"))
+        obs.count("behaviour_transform_compared")
+        ra = fa.inverse_transform(*fa.scores())
+        rb = fb.inverse_transform(*fb.scores())
+        for i_, (a, b_) in enumerate(zip(ra, rb)):
+            a = np.asarray(a.transpose(*b_.dims).values)
+            b_ = np.asarray(b_.values)
+            obs.close(f"dask_vs_numpy:reconstruction[{i_}]", a, b_, tol, scale=float(np.nanmax(np.abs(b_))), tags=dict(tags, op="inverse_transform", entry="reconstruction", symptom="dask_ne_numpy"))
+
+
 def run_case(case, obs):
     cls, layout, sched, mode = case["cls"], case["layout"], case["sched"], case["mode"]
+    if _has_nans(case):
+        obs.cell("nans:eager_dask")
+        obs.tag(nans=True)
     obs.tag(cls=cls, mode=mode)
     obs.cell(f"cls:{cls}", f"layout:{layout}", f"sched:{sched}", f"mode:{mode}", f"solver:{case['solver']}")
     if _kw(case, False)[1].get("use_pca"):
@@ -382,6 +443,7 @@ def run_case(case, obs):
                 obs.close(f"dask_vs_numpy:rotation_invariant_reconstruction[{i_}]", a, b_, max(tol_eq, 1e-6), scale=float(np.abs(b_).max()), tags=dict(tags, entry="reconstruction", symptom="dask_ne_numpy"))
         else:
             _compare(obs, "dask_vs_numpy", got, ref, tol_eq, tags, cls=cls)
+            _behaviour(obs, case, cls, m, ref_m, Xd, Yd, X, Y, tol_eq, tags)
         # history: further compute() calls on the same object must neither touch the stored input
         # nor change any result (the allow_compute flag has to survive the rebuild done by compute())
         if cls != "OPA" and callable(getattr(m, "compute", None)):
